@@ -321,7 +321,7 @@ func heldAt(ops []mutexOp, same func(m mutexOp) bool, at ssa.Instruction) (ssa.I
 				continue
 			}
 			// an unlock that may execute between l and at
-			if instrDominates(l.in, u.in) && mayPrecede(u.in, at) {
+			if instrDominates(l.in, u.in) && instrReachAvoiding(u.in, at, l.in) {
 				released = true
 			}
 		}
